@@ -1971,6 +1971,35 @@ def restore_guarded_setdefault(fnode, bsrc, stats):
       return
 
 
+def lower_new_or_returns(fnode, bsrc, stats):
+  """`return A or B` / `x = A or B` where the reference function has no `or`-valued expression: `t = A; if t: return t; return B`
+  (`x = A; if not x: x = B`), so that a helper called in B can be inlined and path rules see the test."""
+  if any(isinstance(n, ast.BoolOp) and isinstance(n.op, ast.Or) and isinstance(p_, (ast.Return, ast.Assign))
+         for p_ in ast.walk(bsrc) for n in [getattr(p_, 'value', None)] if n is not None):
+    return
+  k = [0]
+  for b in _blocks(fnode):
+    i = 0
+    while i < len(b):
+      st = b[i]
+      v = getattr(st, 'value', None)
+      if isinstance(st, ast.Return) and isinstance(v, ast.BoolOp) and isinstance(v.op, ast.Or) and len(v.values) == 2 and \
+         any(isinstance(c, ast.Call) for c in ast.walk(v.values[1])):
+        k[0] += 1
+        tmp = '__or%d' % k[0]
+        new = [ast.Assign(targets=[ast.Name(id=tmp, ctx=ast.Store())], value=v.values[0]),
+               ast.If(test=ast.Name(id=tmp, ctx=ast.Load()), body=[ast.Return(value=ast.Name(id=tmp, ctx=ast.Load()))], orelse=[]),
+               ast.Return(value=v.values[1])]
+        for n_ in new:
+          ast.copy_location(n_, st)
+        b[i:i + 1] = new
+        stats['ors'] = stats.get('ors', 0) + 1
+        i += 3
+        continue
+      i += 1
+  ast.fix_missing_locations(fnode)
+
+
 def raise_append_loops(fnode, bsrc, stats):
   """`acc = []` directly followed by `for T in IT: [if C:] acc.append(E)` (nothing else in the loop), in a function whose reference version has
   comprehensions and no such accumulation loop: the comprehension `acc = [E for T in IT if C]` again (the same calls in the same order; the list
@@ -2277,6 +2306,18 @@ def tuple_assign_texts(fnode):
                     and isinstance(n.targets[0], ast.Tuple) and isinstance(n.value, ast.Tuple)))
 
 
+def _is_plain_constructor(call):
+  """A call that builds a fresh object from pure arguments and cannot read what the surrounding statement stores: a class called by its
+  (capitalised) name or a builtin container constructor."""
+  f = call.func
+  nm = f.id if isinstance(f, ast.Name) else None
+  if nm is None or call.keywords and any(k.arg is None for k in call.keywords):
+    return False
+  if not (nm[:1].isupper() or nm in ('set', 'dict', 'list', 'tuple', 'deque', 'frozenset', 'object')):
+    return False
+  return all(_is_pure(a) for a in call.args) and all(_is_pure(k.value) for k in call.keywords)
+
+
 def split_new_tuple_assigns(fnode, base_texts, stats):
   """a, b = X, Y (not in the reference tree) -> a = X; b = Y, when that is the same thing: distinct plain names or attribute chains as targets,
   and no right-hand side reads a target stored before it in the sequential form (an attribute target counts as read by any later
@@ -2305,7 +2346,8 @@ def split_new_tuple_assigns(fnode, base_texts, stats):
               if any(isinstance(n, ast.Name) and n.id == t.id for n in ast.walk(v)):
                 ok = False
             else:
-              if texts[k] in ast.unparse(v) or any(isinstance(n, (ast.Call, ast.Await, ast.Yield, ast.YieldFrom)) for n in ast.walk(v)):
+              if texts[k] in ast.unparse(v) or any(isinstance(n, (ast.Await, ast.Yield, ast.YieldFrom)) for n in ast.walk(v)) or \
+                 any(isinstance(n, ast.Call) and not _is_plain_constructor(n) for n in ast.walk(v)):
                 ok = False
         # every name target: not read by ANY right-hand side placed after its store (covered above); reads placed before are unaffected
         if ok:
@@ -2434,6 +2476,7 @@ def rename_function(fnode, rel, qualname, base_funcs, stats):
       split_joined_flag(fnode, base_names, stats)
       loop_flag_to_break(fnode, base_names, stats)
       if bsrc is not None:
+        lower_new_or_returns(fnode, bsrc, stats)
         keywords_to_positional(fnode, bsrc, stats)
         inline_direct_nested_calls(fnode, bsrc, stats)
         raise_append_loops(fnode, bsrc, stats)
